@@ -50,6 +50,24 @@ theorem idx_cons {α} (a : α) (l : List α) : idx (a :: l) = (0, a) :: (idx l).
   simp only [List.length_cons, List.range_succ_eq_map, List.zip_cons_cons, List.zip_map_left]
   congr 1
 
+theorem idx_mem {α} : ∀ (l : List α) (k : Nat) (x : α), (k, x) ∈ idx l → l[k]? = some x := by
+  intro l
+  induction l with
+  | nil => intro k x h; simp [idx] at h
+  | cons a l ih =>
+    intro k x h
+    rw [idx_cons] at h
+    rcases List.mem_cons.mp h with h | h
+    · cases h; rfl
+    · simp only [List.mem_map] at h
+      obtain ⟨⟨k', x'⟩, hm, he⟩ := h
+      cases he
+      simpa using ih k' x' hm
+
+theorem idx_mem_lt {α} (l : List α) (k : Nat) (x : α) (h : (k, x) ∈ idx l) : k < l.length := by
+  have := idx_mem l k x h
+  exact (List.getElem?_eq_some_iff.mp this).1
+
 /-- methods of a service from index `j` -/
 def declMethodsFrom (fi si : Nat) (fqn : String) : Nat → List MethodD → List Decl
   | _, [] => []
